@@ -46,7 +46,7 @@
 (* missing argument when the evaluation reaches it, surplus keywords after *)
 (* everything ran).                                                        *)
 (***************************************************************************)
-EXTENDS MapDenote
+EXTENDS MapDenote, SequencesExt
 
 KnownStorages == {"dict", "file_array", "shared_memory_dict"}
 
@@ -115,6 +115,95 @@ ConsumersAgree(dd) ==
         dd.funcs[i].ms.ins[k].name = dd.funcs[j].ms.ins[m].name => SameAxes(dd.funcs[i].ms.ins[k], dd.funcs[j].ms.ins[m])
 LawAxesByRole(dd) == UniqueOutputs(dd) => (ConsistentAxes(dd) <=> (ProducerConsumerAgree(dd) /\ ConsumersAgree(dd)))
 
+(* the construction clauses that do not compare MapSpecs with each other *)
+ConstructOK0(dd) == UniqueOutputs(dd) /\ OutputNotOwnParam(dd) /\ Acyclic(dd) /\ ConsistentDefaults(dd) /\ MapSpecMatchesSignature(dd)
+
+---------------------------------------------------------------------------
+(* MapSpecs that the LIBRARY derives.  A description says which MapSpec every function carries; it has no field for WHO  *)
+(* wrote it.  ConsistentAxes therefore speaks about hand-written MapSpecs and about the ones pipefunc derives itself in  *)
+(* exactly the same way: the combined MapSpec of a NestedPipeFunc (NestedPipeFunc._combine_mapspecs) and the MapSpecs    *)
+(* rewritten by Pipeline.add_mapspec_axis (_pipeline/_mapspec.py add_mapspec_axis).  The two derivations are operators  *)
+(* on descriptions; "consistent by construction" is a LAW about them (below), it holds for the derived MapSpecs among    *)
+(* each other - not for a hand-written MapSpec that is put next to them afterwards.                                      *)
+SpecsIn(dd, S, n) == UNION {{fn.ms.ins[k] : k \in {m \in DOMAIN fn.ms.ins : fn.ms.ins[m].name = n}}
+                            \cup {fn.ms.outs[k] : k \in {m \in DOMAIN fn.ms.outs : fn.ms.outs[m].name = n}}
+                            : fn \in {dd.funcs[i] : i \in {j \in S : dd.funcs[j].has_ms}}}
+ArrayNamesIn(dd, S) == {n \in ArrayNames(dd) : SpecsIn(dd, S, n) # {}}
+(* mapspec_axes: what the MapSpecs of the functions in S say together about array n - at every position the name that    *)
+(* some mention gives; a position that every mention reduces (':') is called unnamed_<position>                          *)
+MergedAxes(dd, S, n) ==
+    LET ms == SpecsIn(dd, S, n)  r == Len((CHOOSE s \in ms : TRUE).axes) IN
+    [k \in 1..r |-> IF \E s \in ms : s.axes[k] # ":" THEN (CHOOSE s \in ms : s.axes[k] # ":").axes[k]
+                    ELSE "unnamed_" \o ToString(k - 1)]
+SubDesc(dd, S) == LET ks == SelectSeq([k \in FIdx(dd) |-> k], LAMBDA k : k \in S) IN [funcs |-> [m \in DOMAIN ks |-> dd.funcs[ks[m]]]]
+IndexNames(specs) == UNION {SeqToSet(specs[k].axes) : k \in DOMAIN specs} \ {":"}
+(* what NestedPipeFunc asks of the functions it combines: at least two, a well-formed pipeline of their own with a single *)
+(* leaf, MapSpecs on all of them or on none, all over the same indices, none reducing                                     *)
+Nestable(dd, S) ==
+    /\ S \subseteq FIdx(dd) /\ Cardinality(S) >= 2 /\ ConstructOK0(SubDesc(dd, S))
+    /\ Cardinality({i \in S : \A j \in S : OutputsOf(dd, i) \cap ParamsOf(dd, j) = {}}) = 1
+    /\ \/ \A i \in S : ~dd.funcs[i].has_ms
+       \/ \A i, j \in S : /\ dd.funcs[i].has_ms
+                          /\ IndexNames(dd.funcs[i].ms.ins) = IndexNames(dd.funcs[i].ms.outs)
+                          /\ IndexNames(dd.funcs[i].ms.ins) = IndexNames(dd.funcs[j].ms.ins)
+                          /\ \A k \in DOMAIN dd.funcs[i].ms.ins : ":" \notin SeqToSet(dd.funcs[i].ms.ins[k].axes)
+(* the function that stands for the functions S: every output of theirs, the parameters that none of them produces; its   *)
+(* MapSpec lists the array parameters and all outputs with the merged axes                                                *)
+NestedFn(dd, S, name) ==
+    LET outs   == SetToSeq(UNION {OutputsOf(dd, i) : i \in S})
+        pars   == SetToSeq((UNION {{p \in ParamsOf(dd, i) : ~IsBound(dd, i, p)} : i \in S}) \ SeqToSet(outs))
+        mapped == SelectSeq(pars, LAMBDA p : p \in ArrayNamesIn(dd, S))
+        dflt   == SelectSeq(pars, LAMBDA p : HasDefault(SubDesc(dd, S), p))
+    IN  [name |-> name, params |-> pars, outputs |-> outs,
+         defaults |-> [k \in DOMAIN dflt |-> <<dflt[k], DefaultOf(SubDesc(dd, S), dflt[k])>>], bound |-> <<>>,
+         has_ms |-> \E i \in S : dd.funcs[i].has_ms,
+         ms |-> [ins  |-> [k \in DOMAIN mapped |-> [name |-> mapped[k], axes |-> MergedAxes(dd, S, mapped[k])]],
+                 outs |-> IF \E i \in S : dd.funcs[i].has_ms
+                          THEN [k \in DOMAIN outs |-> [name |-> outs[k], axes |-> MergedAxes(dd, S, outs[k])]] ELSE <<>>],
+         internal |-> <<>>, cache |-> FALSE]
+(* Pipeline([NestedPipeFunc([functions S]), the other functions ...]) *)
+Nest(dd, S, name) ==
+    LET rest == SelectSeq([k \in FIdx(dd) |-> k], LAMBDA k : k \notin S) IN
+    [funcs |-> <<NestedFn(dd, S, name)>> \o [m \in DOMAIN rest |-> dd.funcs[rest[m]]]]
+(* nesting changes nothing about what the pipeline says about an array that is visible from outside *)
+LawNestKeepsAxesVerdict(dd, S) ==
+    (Nestable(dd, S) /\ UniqueOutputs(dd)) => (ConsistentAxes(Nest(dd, S, "nest")) <=> ConsistentAxes(dd))
+
+(* Pipeline.add_mapspec_axis(p, axis=ax): every function that takes p (unbound) maps over it along ax as well - the axis   *)
+(* is appended to p's input spec (a spec  p[:, ..., ax]  of p's rank r is added when the function took p whole; a function *)
+(* without a MapSpec gets  p[:, ..., ax] -> out[ax]) and to every output spec of the function, and the same then happens   *)
+(* downstream for each of these outputs.                                                                                  *)
+AxesFromDims(r, ax) == [k \in 1..r |-> IF k = r THEN ax ELSE ":"]
+WithAxis(axes, ax)  == IF ax \in SeqToSet(axes) THEN axes ELSE Append(axes, ax)
+AddAxisFn(fn, p, r, ax) ==
+    LET nin  == IF ~fn.has_ms THEN <<[name |-> p, axes |-> AxesFromDims(r, ax)]>>
+                ELSE IF \E k \in DOMAIN fn.ms.ins : fn.ms.ins[k].name = p
+                     THEN [k \in DOMAIN fn.ms.ins |-> IF fn.ms.ins[k].name = p THEN [fn.ms.ins[k] EXCEPT !.axes = WithAxis(@, ax)]
+                                                      ELSE fn.ms.ins[k]]
+                     ELSE Append(fn.ms.ins, [name |-> p, axes |-> AxesFromDims(r, ax)])
+        nout == IF ~fn.has_ms THEN [k \in DOMAIN fn.outputs |-> [name |-> fn.outputs[k], axes |-> <<ax>>]]
+                ELSE [k \in DOMAIN fn.ms.outs |-> [fn.ms.outs[k] EXCEPT !.axes = WithAxis(@, ax)]]
+    IN  [fn EXCEPT !.has_ms = TRUE, !.ms = [ins |-> nin, outs |-> nout]]
+RECURSIVE AddAxisFrom(_, _, _, _), AddAxisOver(_, _, _)
+AddAxisFrom(dd, p, r, ax) ==
+    LET users == {i \in FIdx(dd) : p \in ParamsOf(dd, i) /\ ~IsBound(dd, i, p)}
+        d1    == [dd EXCEPT !.funcs = [i \in FIdx(dd) |-> IF i \in users THEN AddAxisFn(dd.funcs[i], p, r, ax) ELSE dd.funcs[i]]]
+    IN  AddAxisOver(d1, UNION {OutputsOf(dd, i) : i \in users}, ax)
+AddAxisOver(dd, names, ax) ==
+    IF names = {} THEN dd
+    ELSE LET o == CHOOSE o \in names : TRUE
+             r == Len(dd.funcs[FuncOf(dd, o)].ms.outs[1].axes)
+         IN  AddAxisOver(AddAxisFrom(dd, o, r, ax), names \ {o}, ax)
+AddMapspecAxis(dd, p, ax) == AddAxisFrom(dd, p, 1, ax)
+AllAxisNames(dd) == UNION {IndexNames(dd.funcs[i].ms.ins) \cup IndexNames(dd.funcs[i].ms.outs) : i \in FIdx(dd)}
+(* "consistent by construction": a fresh axis added to a consistent acyclic pipeline leaves it consistent, and every      *)
+(* function downstream of p maps over the new axis                                                                        *)
+LawAddAxisKeepsConsistency(dd, p, ax) ==
+    (ConstructOK0(dd) /\ ConsistentAxes(dd) /\ ax \notin AllAxisNames(dd)) =>
+        LET d2 == AddMapspecAxis(dd, p, ax) IN
+        /\ ConsistentAxes(d2) /\ MapSpecMatchesSignature(d2)
+        /\ \A i \in FIdx(dd) : (p \in ParamsOf(dd, i) /\ ~IsBound(dd, i, p)) => ax \in IndexNames(d2.funcs[i].ms.outs)
+
 ConstructOK(dd) == /\ UniqueOutputs(dd) /\ OutputNotOwnParam(dd) /\ Acyclic(dd) /\ ConsistentDefaults(dd)
                    /\ MapSpecMatchesSignature(dd) /\ ConsistentAxes(dd)
 
@@ -155,6 +244,31 @@ RankOK(dd, inputs)    == ShapeFault(dd, inputs, 1) # "rank"
 (* arrays zipped along a shared axis name have the same size there (MapSpec.shape); this is the clause "ZipDimsOK"   *)
 (* (MapDenote!ZipDimsOK is the test for one function)                                                                  *)
 ZipOK(dd, inputs) == ShapeFault(dd, inputs, 1) # "zip"
+
+(* The zip clause said per AXIS NAME: all the arrays of one MapSpec that carry the name - however many there are and in    *)
+(* whatever order the MapSpec lists them - have ONE size there.  (Comparing some of them - each with its neighbour's        *)
+(* neighbour, the first with the last - is not the clause.)                                                                 *)
+AxisSizesOf(dd, env, i, a) ==
+    LET fn == dd.funcs[i] IN
+    {ShapeOf(BoundOrEnv(dd, env, i, fn.ms.ins[km[1]].name), Len(fn.ms.ins[km[1]].axes))[km[2]] :
+        km \in {x \in (DOMAIN fn.ms.ins) \X (1..4) : x[2] \in DOMAIN fn.ms.ins[x[1]].axes /\ fn.ms.ins[x[1]].axes[x[2]] = a}}
+ZipByAxis(dd, env, i) == \A a \in InputAxisNames(dd.funcs[i]) : Cardinality(AxisSizesOf(dd, env, i, a)) <= 1
+(* the listing orders of n MapSpec inputs that the law tries: every rotation and the reversal *)
+ListingOrders(n) == {[k \in 1..n |-> ((k + r - 1) % n) + 1] : r \in 0..(n - 1)} \cup {[k \in 1..n |-> n + 1 - k]}
+PermuteIns(dd, i, perm) == [dd EXCEPT !.funcs[i].ms.ins = [k \in DOMAIN @ |-> @[perm[k]]]]
+RECURSIVE FirstFaultGen(_, _, _)         \* the first generation >= g with a shape fault (MaxGen + 1: none)
+FirstFaultGen(dd, inputs, g) ==
+    IF g > MaxGen(dd) THEN g
+    ELSE LET env == EnvGen(dd, inputs, FIdx(dd), g - 1) IN
+         IF \E i \in {j \in FIdx(dd) : GenOf(dd, j) = g} : RankFault(dd, env, i) \/ ZipFault(dd, env, i) THEN g
+         ELSE FirstFaultGen(dd, inputs, g + 1)
+LawZipIsAboutAllArrays(dd, inputs) ==
+    \A i \in {j \in FIdx(dd) : HasMapInputs(dd.funcs[j])} :
+        /\ \A perm \in ListingOrders(Len(dd.funcs[i].ms.ins)) :                       \* the listing order is immaterial
+               ShapeFault(PermuteIns(dd, i, perm), inputs, 1) = ShapeFault(dd, inputs, 1)
+        /\ GenOf(dd, i) <= FirstFaultGen(dd, inputs, 1) =>                            \* (the earlier generations are sound)
+               LET env == EnvGen(dd, inputs, FIdx(dd), GenOf(dd, i) - 1) IN
+               MappedRankOK(dd, env, i) => (ZipDimsOK(dd, env, i) <=> ZipByAxis(dd, env, i))
 
 ClauseOrder == <<"UniqueOutputs", "OutputNotOwnParam", "Acyclic", "ConsistentDefaults", "MapSpecMatchesSignature",
                  "ConsistentAxes", "ExecutorNeedsParallel", "CompleteInputs", "NoSurplusInputs", "KnownStorage", "RankOK",
